@@ -299,4 +299,66 @@ fn run(c: &mut Case) {
     }
     c.sig_of(&(history, (rotations + 3) / 4, loaded_start, start_keys, algs_used));
     c.sample(|| json!({"script": script, "cookies": issued.len()}));
+    if c.idx % 3 == 0 {
+        restart_with_smaller_history(c, prof);
+    }
+}
+
+/// The operator lowers the number of retained keys across a restart: keys stored under history h1 are loaded with
+/// h2 <= h1 and rotated further. After at least one rotation under h2 the window is exactly h2 previous keys.
+fn restart_with_smaller_history(c: &mut Case, prof: &str) {
+    let h1 = c.rng.usize(1, 8);
+    let h2 = c.rng.usize(0, h1);
+    let r1 = c.rng.usize(h1, h1 + 6);
+    let k = c.rng.usize(1, 3);
+    let mut provider = KeySetProvider::new(h1);
+    // (generation issued, cookie bytes, algorithm, s2c, c2s)
+    let mut issued: Vec<(i64, Vec<u8>, u16, Vec<u8>, Vec<u8>)> = Vec::new();
+    let mut generation: i64 = 0;
+    let mut issue = |c: &mut Case, p: &KeySetProvider, generation: i64, issued: &mut Vec<(i64, Vec<u8>, u16, Vec<u8>, Vec<u8>)>| {
+        let alg = if c.rng.bool() { AEAD_256 } else { AEAD_512 };
+        let s = SessionKeys::random(&mut c.rng, alg);
+        if let Some(dc) = hp::make_cookie(alg, &s.s2c, &s.c2s) {
+            issued.push((generation, hp::encode_cookie(&p.get(), &dc), alg, s.s2c.clone(), s.c2s.clone()));
+        }
+    };
+    issue(c, &provider, generation, &mut issued);
+    for _ in 0..r1 {
+        provider.rotate();
+        generation += 1;
+        issue(c, &provider, generation, &mut issued);
+    }
+    let bytes = pktgen::stored_bytes(&provider);
+    let Ok((mut reloaded, _)) = KeySetProvider::load(&mut &bytes[..], h2) else {
+        c.harness_error("a key file written by store() does not load");
+        return;
+    };
+    for _ in 0..k {
+        reloaded.rotate();
+        generation += 1;
+        issue(c, &reloaded, generation, &mut issued);
+    }
+    c.inc("history_reduced_restarts");
+    let ks = reloaded.get();
+    let script = json!({"scenario": "restart with smaller history", "history_before": h1, "history_after": h2, "rotations_before": r1, "rotations_after": k});
+    for (g, bytes, alg, s2c, c2s) in &issued {
+        let age = generation - g;
+        let got = hp::decode_cookie_parts(&ks, bytes);
+        c.inc("cookie_decodes");
+        let det = || json!({"script": script, "issued_at_rotation": g, "decoded_at_rotation": generation, "cookie_hex": hex(bytes)});
+        if age <= h2 as i64 {
+            match got {
+                Some((a, s, cc)) if a == *alg && &s == s2c && &cc == c2s => {}
+                Some(_) => c.violation(format!("wrong-keys/after-history-reduction/{prof}"), "cookie decodes to other keys after a restart with a smaller history", det()),
+                None => c.violation(
+                    format!("valid-cookie-rejected/after-history-reduction/{prof}"),
+                    format!("cookie issued {age} rotation(s) ago fails to decode although {h2} previous keys are configured (keys were stored under history {h1})"),
+                    det(),
+                ),
+            }
+        } else if got.is_some() {
+            c.violation(format!("expired-cookie-accepted/after-history-reduction/{prof}"), format!("cookie issued {age} rotations ago still decodes with history {h2}"), det());
+        }
+    }
+    c.sig_of(&("reduce", h1, h2, k));
 }
